@@ -10,7 +10,7 @@ import random
 from common import Report, ToolError, check_action_coverage, log, run_cases, run_tlc, std_main
 
 NONE = "<none>"
-NAMES = ["n1", "a.b", "x-y", "_u", "vpa", "vmk", "7z"]
+NAMES = ["n1", "a.b", "x-y", "_u", "vpa", "vmk", "7z", "4.2"]      # 4.2: a name of digits and dots only
 DEF = {"v1": "'vpa -x'", "v2": "'vpa \"o q\"'", "v3": "\"vpa 'o q'\"", "v4": "'vpa P1 | vio F r'", "v5": "'vmk 5 0'", "v6": "'vpa -s6'", "v7": "'vpa a=b'",
        "v8": "'\"vpa\" -q8'"}        # a value that begins with a quoted command word
 # what a value means: list of (program, fixed args); extra words of the use are appended to the last one
